@@ -208,10 +208,22 @@ pub fn seek_from(w: Whence, off: i64) -> SeekFrom {
     }
 }
 
-/// The world: one model per filesystem index.
+/// An open write handle as the contracts see it: a growable cursor whose buffer is published at
+/// flush and drop. While `dirty`, what other observers see at `path` is unspecified.
+#[derive(Clone, Debug, PartialEq)]
+pub struct WSlot {
+    pub fs: usize,
+    pub path: String,
+    pub cur: Cursor<Vec<u8>>,
+    pub dirty: bool,
+    pub append: bool,
+}
+
+/// The world: one model per filesystem index, plus open write handles.
 #[derive(Clone, Debug, PartialEq, Default)]
 pub struct World {
     pub m: Vec<Model>,
+    pub w: BTreeMap<u8, WSlot>,
 }
 
 fn nf_if(m: &Model, p: &str) -> Vec<ErrClass> {
@@ -225,7 +237,7 @@ fn nf_if(m: &Model, p: &str) -> Vec<ErrClass> {
 
 impl World {
     pub fn new(n: usize) -> World {
-        World { m: (0..n).map(|_| Model::new()).collect() }
+        World { m: (0..n).map(|_| Model::new()).collect(), w: BTreeMap::new() }
     }
 
     /// Decide what the contracts demand for `op` and apply its effect. Paths must be canonical
@@ -467,19 +479,88 @@ impl World {
                     Want::Ok(Some(Out::Count(n)))
                 }
             }
+            Op::OpenWrite { append, slot, .. } => {
+                let (f, p) = &cps[0];
+                let m = &mut self.m[*f];
+                if p.is_empty() || self.w.values().any(|s| s.fs == *f && s.path == *p) {
+                    return Want::Unspec;
+                }
+                let initial = if *append {
+                    match m.file(p) {
+                        Some(old) => old.as_ref().clone(),
+                        None => return Want::Err(nf_if(m, p)),
+                    }
+                } else {
+                    if !m.is_dir(&parent_of(p)) || m.is_dir(p) {
+                        return Want::Err(vec![]);
+                    }
+                    m.t.insert(p.clone(), Node::File(Arc::new(vec![])));
+                    vec![]
+                };
+                let mut cur = Cursor::new(initial);
+                cur.seek(SeekFrom::End(0)).unwrap();
+                self.w.insert(*slot, WSlot { fs: *f, path: p.clone(), cur, dirty: false, append: *append });
+                Want::Ok(Some(Out::Unit))
+            }
+            Op::HWrite(slot, pl) => match self.w.get_mut(slot) {
+                Some(ws) => {
+                    let b = pl.bytes();
+                    if !b.is_empty() {
+                        ws.cur.write_all(&b).unwrap();
+                        ws.dirty = true;
+                    }
+                    Want::Ok(Some(Out::Num(b.len())))
+                }
+                None => Want::Unspec,
+            },
+            Op::HSeek(slot, wh, off) => match self.w.get_mut(slot) {
+                Some(ws) => match ws.cur.seek(seek_from(*wh, *off)) {
+                    Ok(pos) => Want::Ok(Some(Out::Pos(pos))),
+                    Err(_) => Want::Err(vec![]),
+                },
+                None => Want::Unspec,
+            },
+            Op::HFlush(slot) | Op::HDrop(slot) => {
+                let drop_it = matches!(op, Op::HDrop(_));
+                match self.w.get_mut(slot) {
+                    Some(ws) => {
+                        ws.dirty = false;
+                        let (f, p, buf) = (ws.fs, ws.path.clone(), ws.cur.get_ref().clone());
+                        if !self.m[f].is_dir(&parent_of(&p)) || self.m[f].is_dir(&p) {
+                            // the path was removed/replaced while the handle was open: unspecified
+                            if drop_it {
+                                self.w.remove(slot);
+                            }
+                            return Want::Unspec;
+                        }
+                        self.m[f].t.insert(p, Node::File(Arc::new(buf)));
+                        if drop_it {
+                            self.w.remove(slot);
+                        }
+                        Want::Ok(Some(Out::Unit))
+                    }
+                    None => Want::Unspec,
+                }
+            }
             // decided by dedicated oracles (time mode, handle mode) or not at all
             Op::SetTime(..)
             | Op::OpenRead(..)
-            | Op::OpenWrite { .. }
             | Op::HRead(..)
-            | Op::HSeek(..)
-            | Op::HWrite(..)
-            | Op::HFlush(_)
-            | Op::HDrop(_)
             | Op::EnvNonUtf8(_)
             | Op::EnvDanglingSymlink(_)
             | Op::EnvRemoveBehind(_) => Want::Unspec,
         }
+    }
+}
+
+impl World {
+    /// paths with an open write handle holding unflushed data (observations there are unspecified)
+    pub fn dirty_paths(&self, fs: usize) -> Vec<String> {
+        self.w.values().filter(|s| s.fs == fs && s.dirty).map(|s| s.path.clone()).collect()
+    }
+    /// paths with any open write handle
+    pub fn open_paths(&self, fs: usize) -> Vec<String> {
+        self.w.values().filter(|s| s.fs == fs).map(|s| s.path.clone()).collect()
     }
 }
 
